@@ -34,6 +34,41 @@ CONSUMERS = {
 }
 
 
+def gossip(ctx, cov):
+    """The transport the membership snapshots come from (not the subject of a listed property): Gossip.tla exhaustively,
+    then a recorded run of real gossip endpoints validated by Trace_Gossip.tla.  A rejected trace is reported as drift
+    in the evidence, never as a C16 verdict; the binding is demonstrated by a corrupted copy."""
+    binary = vlib.build_harness(ctx, "h-node")
+    mc_cfg = vlib.cfg_text(constants=dict(Nodes={1, 2, 3}, Ghost=9, Cap=2, MaxSends=5 if ctx.tier == "quick" else 6),
+                           invariants=["G_Delivery", "G_Bounded", "G_NothingFromNowhere"])
+    mc, text = vlib.run_tlc(ctx, "Gossip", mc_cfg, "mc_gossip", workers=6, timeout=3000)
+    if not vlib.require_clean_mc(ctx, mc, text, "Gossip"):
+        raise vlib.ToolError("Gossip.tla violates %s: specification error" % mc["violated"])
+    trace = ctx.path("gossip.ndjson")
+    out = vlib.run_harness(ctx, [binary, "record-gossip", "--out", trace, "--seed", str(ctx.seed),
+                                 "--runs", "12" if ctx.tier == "quick" else "80", "--len", "100"], timeout=3000)
+    st = json.loads(out.strip().splitlines()[-1])
+    if st["recvs"] == 0 or st["empties"] == 0 or st["refused_sends"] == 0:
+        raise vlib.ToolError("vacuous gossip run: %s" % st)
+    tv = vlib.validate_trace(ctx, "Trace_Gossip", {}, trace, "trace_gossip", timeout=1800)
+    lines = open(trace).read().splitlines()
+    idx = next(i for i, ln in enumerate(lines) if '"recv"' in ln)
+    e = json.loads(lines[idx])
+    e["src"] = e["src"] % 3 + 1          # the message is logged as coming from another node
+    lines[idx] = json.dumps(e)
+    bad = ctx.path("gossip_corrupted.ndjson")
+    open(bad, "w").write("\n".join(lines) + "\n")
+    tb = vlib.validate_trace(ctx, "Trace_Gossip", {}, bad, "trace_gossip_corrupted", timeout=1800)
+    if tb["accepted"]:
+        raise vlib.ToolError("binding demonstration failed: a gossip trace with a wrong source was accepted")
+    ctx.log("gossip transport: Gossip.tla %d states; %d sends / %d receives / %d empty inboxes / %d refused sends of real endpoints: trace %s" % (
+        mc["distinct"], st["sends"], st["recvs"], st["empties"], st["refused_sends"], "accepted" if tv["accepted"] else "REJECTED (drift)"))
+    cov["gossip_transport"] = dict(st, model_states=mc["distinct"], trace_accepted=tv["accepted"],
+                                   first_unmatched_event=tv["rejected"], corrupted_copy_rejected=not tb["accepted"])
+    if not tv["accepted"]:
+        ctx.notes.append("drift (not a C16 verdict): the gossip transport's recorded run is not a behaviour of Gossip.tla: %s" % tv["rejected"])
+
+
 def consumers(ctx, cov):
     """Membership.tla with the consumers (M), then behaviours replayed on the real store watcher + task distributor +
     replication cycle with real peers (G)."""
@@ -139,6 +174,7 @@ def run(ctx):
            "exhaustive": True, "behaviours": hists, "publishes": pubs, "reads": reads,
            "known_finding_behaviours": known_counts}
     consumers(ctx, cov)
+    gossip(ctx, cov)
     return vlib.finish(ctx, "model_checking", cov, ASSUMPTIONS)
 
 
